@@ -153,6 +153,10 @@ def arith (op : ArithOp) : Val → Val → OpRes
   | .byte a, .float b => .ok (arithFloat op a.toFloat b)
   | _, _ => .panic "Invalid binary operation"
 
+def isByteVal : Val → Bool
+  | .byte _ => true
+  | _ => false
+
 def isNumKind : Val → Bool
   | .int _ | .float _ | .byte _ => true
   | _ => false
@@ -174,6 +178,8 @@ def repeatStr (s : String) (n : Nat) : String := if s.isEmpty then "" else repea
 def binaryOp (k : BinKind) (l r : Val) : OpRes :=
   if isNumKind l && isNumKind r then
     if (k == .arith .div || k == .arith .rem) && r.isZero then .err "Division by zero."
+    -- bytes are ordered among themselves only
+    else if (k == .gt || k == .ge) && (isByteVal l != isByteVal r) then .err "Invalid comparison of a byte and a number."
     else applyBin k l r
   else
     match l, r with
